@@ -40,6 +40,7 @@ class SplitHere(PathAbort):
 
 
 class _State:
+    concretize_shift = True
     W = 72
     LIM = 1 << 71
     engine = None
@@ -422,6 +423,10 @@ class SymInt:
         return SymInt._shift(self, o, True)
 
     def __rlshift__(self, o):
+        if isinstance(o, int) and 0 <= self.lo and self.hi <= 64 and S.concretize_shift:
+            # a single-bit mask built from a small symbolic index: fork over the index so that the mask is a
+            # constant afterwards (x & const is exact in both encodings)
+            return o << eng().concretize(self)
         return SymInt._shift(o, self, True)
 
     def __rshift__(self, o):
@@ -831,6 +836,14 @@ class Engine:
 
     def concretize(self, x, cap=72):
         n = 0
+        if x.hi - x.lo <= cap:
+            # small range: try the values in turn (no model needed)
+            for v in range(x.lo, x.hi + 1):
+                if v == x.hi:
+                    self.assume(x == v)
+                    return v
+                if self.decide(SymBool(x.bv == bvval(v), x.iv == v)):
+                    return v
         while True:
             m = self._model()
             if m is None:
